@@ -125,16 +125,24 @@ func loadKnown(prop string) []*known {
 			continue
 		}
 		rest := strings.TrimSpace(strings.TrimPrefix(line, "known:"))
-		f := strings.Fields(rest)
-		if len(f) < 2 || !strings.HasPrefix(f[0], "property=") || !strings.HasPrefix(f[1], "key=") {
+		// known: property=<id> key=<finding key, may contain spaces> :: <what fails>
+		if !strings.HasPrefix(rest, "property=") {
 			continue
 		}
-		p := strings.TrimPrefix(f[0], "property=")
-		if p != prop {
+		sp := strings.IndexByte(rest, ' ')
+		if sp < 0 {
 			continue
 		}
-		k := strings.TrimPrefix(f[1], "key=")
-		text := strings.TrimSpace(strings.Join(f[2:], " "))
+		p := strings.TrimPrefix(rest[:sp], "property=")
+		rest = strings.TrimSpace(rest[sp:])
+		if p != prop || !strings.HasPrefix(rest, "key=") {
+			continue
+		}
+		rest = strings.TrimPrefix(rest, "key=")
+		k, text := rest, ""
+		if i := strings.Index(rest, " :: "); i >= 0 {
+			k, text = strings.TrimSpace(rest[:i]), strings.TrimSpace(rest[i+4:])
+		}
 		out = append(out, &known{prop: p, key: k, text: text})
 	}
 	return out
